@@ -473,6 +473,128 @@ def fam_shared_redim(tier, rng):
 FAMILIES.append(fam_shared_redim)
 
 
+def fam_static_byref(tier, rng):
+    """STATIC procedures and by-reference arguments together: a STATIC SUB / FUNCTION with a by-reference parameter called
+    several times with the same and with different variables, elements and fields; ordinary calls made after a STATIC
+    procedure has run (its variables stay behind), from the main module and from inside a SUB"""
+    out = []
+    td = [typedef("CELL", [("V", "I"), ("W", "I")])]
+    for t in ("I", "L", "D", "$"):
+        for kind in ("sub", "fun"):
+            for shape in ("var", "idx", "fld"):
+                if shape == "fld" and t != "I":
+                    continue
+                b = B()
+                x, y = var("X", t), var("Y", t)
+                cnt = var("CALLS", "I")
+                body = [b.let(cnt, bin_("+", cnt, lit("I", 1))), b.let(x, bin_("+", x, y)), b.print(lit("$", "in"), cnt, x)]
+                main = [b.dim("AR", t, [dimspec(0, 2)])]
+                if shape == "fld":
+                    main.append(b.dim("RC", "U", [dimspec(1, 2)], ty="CELL"))
+
+                def place(i):
+                    if shape == "var":
+                        return var("T%d" % i, t)
+                    if shape == "idx":
+                        return idx("AR", t, [lit("I", i)])
+                    return fld(idx("RC", "U", [lit("I", i)]), "V", "I")
+                for i in (1, 2):
+                    main.append(b.let(place(i), v0(t) if i == 1 else v1(t)))
+                for (i, amount) in ((1, v0(t)), (1, v1(t)), (2, v0(t)), (1, v0(t))):
+                    if kind == "sub":
+                        main.append(b.call("TALLY", [place(i), amount]))
+                    else:
+                        fc = fcall("TALLY", "I", [place(i), amount], 0)
+                        st = b.print(lit("$", "r"), fc)
+                        fc["sid"] = st["id"]
+                        main.append(st)
+                    main.append(b.print(lit("$", "after"), place(1), place(2)))
+                if kind == "sub":
+                    subs = [sub("TALLY", [("X", t), ("Y", t)], body, static=True)]
+                else:
+                    subs = [fun("TALLY", "I", [("X", t), ("Y", t)], body + [b.let(var("TALLY", "I"), cnt)], static=True)]
+                out.append({"fam": "static-byref:%s/%s/%s" % (t, kind, shape), "prog": prog(main, subs, td if shape == "fld" else None)})
+    # calls after a STATIC procedure has run
+    for t in ("I", "$"):
+        for first in ("static-sub", "static-fun", "none"):
+            for where in ("main", "wrap"):
+                b = B()
+                x = var("X", t)
+                v, w = var("V", t), var("W", t)
+                tk = var("TICKS", "I")
+                subs = [sub("TICK", [], [b.let(tk, bin_("+", tk, lit("I", 1)))], static=True),
+                        fun("TOCK", "I", [], [b.let(tk, bin_("+", tk, lit("I", 1))), b.let(var("TOCK", "I"), tk)], static=True),
+                        sub("SHOW", [("V", t)], [b.print(lit("$", "show"), v)]),
+                        sub("BUMP", [("V", t)], [b.let(v, bump(t, v))]),
+                        fun("TWICE", t, [("V", t)], [b.let(var("TWICE", t), bin_("+", v, v))])]
+                tw = fcall("TWICE", t, [w if where == "wrap" else x], 0)
+
+                def calls(target):
+                    tw_ = fcall("TWICE", t, [target], 0)
+                    st = b.print(lit("$", "twice"), tw_)
+                    tw_["sid"] = st["id"]
+                    return [b.call("SHOW", [target]), b.call("BUMP", [target]), b.print(lit("$", "bumped"), target), st,
+                            b.call("SHOW", [bump(t, target)])]
+                main = [b.let(x, v0(t)), b.call("SHOW", [x])]
+                if first == "static-sub":
+                    main.append(b.call("TICK", []))
+                elif first == "static-fun":
+                    fc = fcall("TOCK", "I", [], 0)
+                    st = b.print(lit("$", "tock"), fc)
+                    fc["sid"] = st["id"]
+                    main.append(st)
+                if where == "main":
+                    main += calls(x)
+                else:
+                    subs.append(sub("WRAP", [("W", t)], calls(w)))
+                    main.append(b.call("WRAP", [x]))
+                if first != "none":
+                    main.append(b.call("TICK", []))
+                    main += calls(x)
+                main.append(b.print(lit("$", "end"), x))
+                out.append({"fam": "after-static:%s/%s/%s" % (t, first, where), "prog": prog(main, subs)})
+    # a by-reference FIELD of an array element whose subscript calls a function; a subscript that is the bare name of a
+    # parameterless FUNCTION, in an argument and in an assignment target
+    for host in ("sub", "fun", "fun-print"):
+        for sub_form in ("call1", "bare0"):
+            for target in ("fld", "elem"):
+                b = B()
+                pick = fcall("PICK", "I", [lit("I", 2)], 0) if sub_form == "call1" else fcall("TWO", "I", [], 0)
+                if target == "fld":
+                    place = fld(idx("RC", "U", [pick]), "V", "I")
+                    rd = fld(idx("RC", "U", [lit("I", 2)]), "V", "I")
+                    other = fld(idx("RC", "U", [lit("I", 2)]), "W", "I")
+                else:
+                    place = idx("AR", "I", [pick])
+                    rd = idx("AR", "I", [lit("I", 2)])
+                    other = idx("AR", "I", [lit("I", 1)])
+                x = var("X", "I")
+                subs = [fun("PICK", "I", [("I", "I")], [b.let(var("PICK", "I"), var("I", "I"))]),
+                        fun("TWO", "I", [], [b.let(var("TWO", "I"), lit("I", 2))]),
+                        sub("P", [("X", "I")], [b.print(lit("$", "in"), x), b.let(x, bin_("+", x, lit("I", 1)))]),
+                        fun("BUMPF", "I", [("X", "I")], [b.let(x, bin_("+", x, lit("I", 1))), b.let(var("BUMPF", "I"), bin_("*", x, lit("I", 10)))])]
+                main = [b.dim("AR", "I", [dimspec(1, 3)]), b.dim("RC", "U", [dimspec(1, 3)], ty="CELL"), b.let(rd, lit("I", 5))]
+                if host == "sub":
+                    c = b.call("P", [place])
+                else:
+                    fc = fcall("BUMPF", "I", [place], 0)
+                    c = b.let(var("R", "I"), fc) if host == "fun" else b.print(lit("$", "r"), fc)
+                    fc["sid"] = c["id"]
+                pick["sid"] = c["id"]
+                main += [c, b.print(lit("$", "after"), rd, other)]
+                # the same place as an assignment target
+                pick2 = dict(pick)
+                place2 = fld(idx("RC", "U", [pick2]), "V", "I") if target == "fld" else idx("AR", "I", [pick2])
+                st = b.let(place2, lit("I", 40))
+                pick2["sid"] = st["id"]
+                main += [st, b.print(lit("$", "set"), rd, other)]
+                out.append({"fam": "place-subscript-call:%s/%s/%s" % (host, sub_form, target), "prog": prog(main, subs, td)})
+    return out
+
+
+FAMILIES.append(fam_static_byref)
+
+
 def cases(tier, seed):
     rng = random.Random(seed)
     out = []
